@@ -48,63 +48,108 @@ def slot_time(k, j):
     return BASE + k * Q + 2 * j + 1
 
 
-def deadlines(ops, creates):
-    """creation op index -> absolute deadline of the timer created by that op.
-    The deadline is the slot of the first ["F", w] placed in a LATER loop
-    iteration than the creating op (a timer can never fire in the iteration
-    that created it), FAR if there is none."""
-    pos, _ = segments(ops)
-    out = {}
-    w = 0
+def is_zero(o):
+    """creation op whose timeout is falsy but not None: 0, 0.0, timedelta(0)"""
+    return len(o) > 1 and o[1] >= 3
+
+
+def timeout_value(form, deadline, now):
+    """The Python object passed as `timeout` for form 0..5 (C33.Model.tmo)."""
+    import datetime
+    if form == 0:
+        return None
+    if form == 1:
+        return deadline                                         # absolute time
+    if form == 2:
+        return datetime.timedelta(seconds=deadline - now)       # relative
+    return {3: 0, 4: 0.0, 5: datetime.timedelta(0)}[form]
+
+
+def creation_index(ops, creates):
+    out, w = {}, 0
     for i, o in enumerate(ops):
         if creates(o):
-            d = FAR
-            for i2 in range(i + 1, len(ops)):
-                if ops[i2][0] == "F" and ops[i2][1] == w:
-                    if pos[i2][0] > pos[i][0]:
-                        d = slot_time(*pos[i2])
-                    break
-            out[i] = d
+            out[w] = i
             w += 1
     return out
 
 
-def well_formed(ops, creates):
-    """No ["F", w] in the same iteration as (or before) the creation of w's timer
-    that precedes a later-iteration ["F", w]: the first F w after creation must be
-    in a later segment (or absent)."""
+def deadlines(ops, creates):
+    """creation op index -> absolute deadline of the timer created by that op: the slot of
+    the first ["F", w] after it (normalize guarantees it is in a LATER loop iteration - a
+    timer never fires in the iteration that created it - and, for a zero timeout, in the
+    iteration immediately following), FAR if there is none."""
     pos, _ = segments(ops)
-    w = 0
-    for i, o in enumerate(ops):
-        if creates(o):
-            for i2 in range(i + 1, len(ops)):
-                if ops[i2][0] == "F" and ops[i2][1] == w:
-                    if pos[i2][0] <= pos[i][0]:
-                        return False
-                    break
-            w += 1
-    return True
+    out = {}
+    for w, i in creation_index(ops, creates).items():
+        d = FAR
+        for i2 in range(i + 1, len(ops)):
+            if ops[i2][0] == "F" and ops[i2][1] == w:
+                assert pos[i2][0] > pos[i][0]
+                d = slot_time(*pos[i2])
+                break
+        out[i] = d
+    return out
 
 
 def normalize(ops, creates):
-    """Drop the ["F", w] ops that make a case not realisable (see well_formed)."""
+    """Make a schedule realisable on a real loop:
+    * a timer cannot fire in the iteration that created it: ["F", w] ops between the creation
+      of w and the next ["D"] are dropped;
+    * a ZERO timeout (0, 0.0, timedelta(0)) is due at once, so its timer fires in the very next
+      iteration: other ["F", w] ops for it are dropped and, if that iteration exists and has
+      none, one is inserted right after the ["D"]."""
     ops = [list(o) for o in ops]
-    while not well_formed(ops, creates):
-        pos, _ = segments(ops)
-        w = 0
-        done = False
-        for i, o in enumerate(ops):
-            if creates(o):
-                for i2 in range(i + 1, len(ops)):
-                    if ops[i2][0] == "F" and ops[i2][1] == w:
-                        if pos[i2][0] <= pos[i][0]:
-                            del ops[i2]
-                            done = True
-                        break
-                w += 1
-            if done:
-                break
-    return ops
+    pos, _ = segments(ops)
+    ci = creation_index(ops, creates)
+    drop = set()
+    insert = {}      # index of a "D" op -> [F ops to insert after it]
+    for w, i in ci.items():
+        seg = pos[i][0]
+        fs = [i2 for i2 in range(i + 1, len(ops)) if ops[i2][0] == "F" and ops[i2][1] == w]
+        if is_zero(ops[i]):
+            keep = [i2 for i2 in fs if pos[i2][0] == seg + 1][:1]
+            drop.update(i2 for i2 in fs if i2 not in keep)
+            if not keep:
+                ds = [i2 for i2 in range(i + 1, len(ops)) if ops[i2][0] == "D"]
+                if ds:
+                    insert.setdefault(ds[0], []).append(["F", w])
+        else:
+            drop.update(i2 for i2 in fs if pos[i2][0] == seg)
+    out = []
+    for i, o in enumerate(ops):
+        if i not in drop:
+            out.append(o)
+        out.extend(insert.get(i, []))
+    return out
+
+
+def well_formed(ops, creates):
+    return normalize(ops, creates) == [list(o) for o in ops]
+
+
+CURRENT = {}
+
+
+def make_timeout(i, o, dl):
+    """(timeout object, restore) for creation op i.  A zero timeout is due 'now': while the call
+    is made the virtual clock stands at the planned expiry slot (for the numeric forms 0 / 0.0,
+    which are ABSOLUTE times on tornado's clock, that clock - time.time - reads 0 meanwhile), so
+    the timer is due at once and runs at its slot in the next loop iteration."""
+    import time as _t
+    loop = CURRENT["loop"]
+    form = o[1]
+    if form >= 3:
+        saved, saved_t = loop.vnow, _t.time
+        loop.vnow = dl[i]
+        if form in (3, 4):
+            _t.time = lambda: 0.0
+
+        def restore():
+            loop.vnow = saved
+            _t.time = saved_t
+        return timeout_value(form, dl[i], loop.vnow), restore
+    return timeout_value(form, dl[i], loop.vnow), (lambda: None)
 
 
 def drive(ops, do_op, scan, final):
@@ -114,6 +159,7 @@ def drive(ops, do_op, scan, final):
     pos, nseg = segments(ops)
 
     async def scenario(loop):
+        CURRENT["loop"] = loop
         finished = loop.create_future()
         box = {}
 
@@ -191,8 +237,18 @@ def run_impl(case):
     log = []
 
     def do_op(i, o):
+        try:
+            do_op1(i, o)
+        except Exception as e:              # only release may raise, and that is handled in do_op1
+            results[i] = Tag("raised-" + type(e).__name__)
+
+    def do_op1(i, o):
         if o[0] == "A":
-            f = obj.acquire(dl[i] if o[1] else None)
+            tv, restore = make_timeout(i, o, dl)
+            try:
+                f = obj.acquire(tv)
+            finally:
+                restore()
             futs.append(f)
             seen.append(False)
             results[i] = Tag("granted") if f.done() else Tag("queued")
@@ -241,11 +297,12 @@ def run_impl(case):
 # Gallina rendering
 # ----------------------------------------------------------------------------
 KIND = {"sem": "KSem", "bounded": "KBounded", "lock": "KLock"}
+TMO = ["TNone", "TAbs", "TDelta", "TZeroInt", "TZeroFloat", "TZeroDelta"]
 
 
 def gop(o):
     if o[0] == "A":
-        return "Acquire %s" % G.gbool(bool(o[1]))
+        return "Acquire %s" % TMO[o[1]]
     if o[0] == "R":
         return "Release"
     if o[0] == "F":
@@ -368,12 +425,17 @@ def corpus_cases():
         mk("bounded", 2, [["R"], ["A", 0], ["R"], ["R"]]),
         mk("bounded", 0, [["R"], ["A", 0], ["R"]]),
         mk("lock", 1, [["R"], ["A", 0], ["A", 1], ["A", 0], ["C", 2], ["D"], ["F", 1], ["R"], ["R"]]),
+        # zero timeouts (0, 0.0, timedelta(0)) are deadlines, not "no timeout": they expire at the next iteration
+        mk("sem", 0, [["A", 0], ["A", 5], ["A", 0], ["D"], ["R"], ["R"], ["R"]]),
+        mk("lock", 1, [["A", 3], ["A", 3], ["A", 4], ["A", 2], ["D"], ["R"], ["D"], ["R"]]),
+        mk("bounded", 1, [["A", 0], ["A", 4], ["R"], ["D"], ["A", 5], ["A", 1], ["D"], ["F", 3], ["R"]]),
         mk("sem", -1, []), mk("bounded", -3, [["R"]]), mk("lock", -1, [["A", 0], ["R"], ["R"]]),
         mk("sem", 0, gc), mk("lock", 1, gc), mk("bounded", 1, gc2),
     ]
 
 
 ALPH_W = 4
+TMO_MIX = [0, 0, 0, 1, 1, 2, 2, 3, 4, 5]     # None / absolute / timedelta / 0 / 0.0 / timedelta(0)
 
 
 def random_ops(rng, n, p_fire=0.2):
@@ -381,7 +443,7 @@ def random_ops(rng, n, p_fire=0.2):
     for _ in range(n):
         x = rng.random()
         if x < 0.30 or nw == 0 and x < 0.6:
-            ops.append(["A", 1 if rng.random() < 0.6 else 0])
+            ops.append(["A", rng.choice(TMO_MIX)])
             nw += 1
         elif x < 0.52:
             ops.append(["R"])
@@ -394,23 +456,37 @@ def random_ops(rng, n, p_fire=0.2):
     return ops
 
 
-def enum_ops(n, max_w):
-    """All realisable op lists of length n (waiter ids < number of acquires so far, <= max_w acquires)."""
+def enum_raw(n, max_w, base, create):
+    """All op lists of length n over base ops + create(None | deadline | zero timeout) + F/C on existing ids."""
     def rec(prefix, nw, left):
         if left == 0:
             yield list(prefix)
             return
-        alph = [["R"], ["D"]]
+        alph = list(base) + [["D"]]
         if nw < max_w:
-            alph += [["A", 0], ["A", 1]]
+            alph += [[create, 0], [create, 1 + len(prefix) % 2], [create, 3 + len(prefix) % 3]]
         for w in range(nw):
             alph += [["F", w], ["C", w]]
         for o in alph:
             prefix.append(o)
-            if o[0] != "F" or well_formed(prefix, _creates):
-                yield from rec(prefix, nw + (1 if o[0] == "A" else 0), left - 1)
+            yield from rec(prefix, nw + (1 if o[0] == create else 0), left - 1)
             prefix.pop()
     yield from rec([], 0, n)
+
+
+def enum_norm(n, max_w, base, create, creates):
+    """enum_raw made realisable (normalize) and de-duplicated."""
+    seen = set()
+    for ops in enum_raw(n, max_w, base, create):
+        ops = normalize(ops, creates)
+        key = tuple(tuple(o) for o in ops)
+        if key not in seen:
+            seen.add(key)
+            yield ops
+
+
+def enum_ops(n, max_w):
+    return enum_norm(n, max_w, [["R"]], "A", _creates)
 
 
 CONFIGS = [("sem", 0), ("sem", 1), ("sem", 2), ("bounded", 0), ("bounded", 1), ("bounded", 2), ("bounded", 3), ("lock", 1)]
@@ -430,11 +506,13 @@ def gen_cases(rng, tier):
             kind, init = rng.choice(CONFIGS)
             out.append(mk(kind, init, random_ops(rng, rng.randrange(13, 30), p_fire=0.25)))
     else:
-        for n in range(0, 6):
+        for n in range(0, 5):
             for ops in enum_ops(n, 3):
-                for kind, init in ((("sem", 0), ("lock", 1)) if n == 5 else CONFIGS):
+                for kind, init in ((("sem", 0), ("bounded", 1), ("lock", 1), ("bounded", 2)) if n == 4 else CONFIGS):
                     out.append(mk(kind, init, ops))
-        for _ in range(2500):
+        for ops in enum_ops(5, 2):
+            out.append(mk("lock", 1, ops))
+        for _ in range(1500):
             kind, init = rng.choice(CONFIGS)
             out.append(mk(kind, init, random_ops(rng, rng.randrange(5, 13))))
         for _ in range(250):
